@@ -125,6 +125,7 @@ def main():
               "R: !record {fields: {x: int}, computedFields: {c: c}}\n", "R: !record {fields: {v: int*3}, computedFields: {c: v[]}}\n",
               "R: !record {fields: {x: int}, computedFields: {c: 'x as int[0]'}}\n", "A: !array {items: int, dimensions: -1}\n",
               "A: !vector {items: int, length: 99999999999999999999}\n", "X: !generic [a]\n", "X: !generic {name: 5}\n",
+              "~: !record {fields: {x: int}}\n", "&anchor: !record {fields: {x: int}}\n", "? \n: !enum {values: [a]}\n", "null: int\n",
               "", "\n", "\x00", "---\n", "- a\n- b\n", "a: &x [*x]\n", "a: *undefined\n", "X: !record [a]\n", "X: !enum [a]\n", "? [a]\n: b\n",
               "A: " + "[" * 3000 + "]" * 3000 + "\n", "A: !vector {items: " * 300 + "int" + "}" * 300 + "\n", "A: " + "int?" + "*" * 600 + "\n",
               "A: !record\n  fields:\n" + "".join("    f%d: int\n" % i for i in range(3000))):
